@@ -54,12 +54,15 @@ for name in sorted(os.listdir("seeded")):
     meta["latest"] = res
     json.dump(meta, open(mp, "w"), indent=1)
     rows.append((name, "", res))
+# RESULTS.md is regenerated from the "latest" entries of all meta.json files (so that a filtered run does not drop rows)
 with open("seeded/RESULTS.md", "w") as f:
-    f.write("# Seeded changes against the quick checks (tools/mutant_matrix.py, VERIF_SEED=%s)\n\n" % seed)
-    f.write("| seeded change | check | exit | violation buckets |\n|---|---|---|---|\n")
-    for name, note, res in rows:
-        if note:
-            f.write(f"| {name} | - | - | {note} |\n")
-        for r in res:
-            f.write(f"| {name} | {r['check']} | {r['exit']} | {', '.join(r['buckets']) or '-'} |\n")
+    f.write("# Seeded changes against the quick checks (tools/mutant_matrix.py; latest run per seeded change)\n\n")
+    f.write("| seeded change | check | seed | exit | violation buckets |\n|---|---|---|---|---|\n")
+    for name in sorted(os.listdir("seeded")):
+        mp = os.path.join("seeded", name, "meta.json")
+        if not os.path.exists(mp):
+            continue
+        meta = json.load(open(mp))
+        for r in meta.get("latest", []):
+            f.write(f"| {name} | {r['check']} | {r.get('seed', '')} | {r['exit']} | {', '.join(r['buckets']) or '-'} |\n")
 print("written seeded/RESULTS.md")
